@@ -241,9 +241,9 @@ pub const RULE_C12: &str = "exhaustive group: all 256 extension sets (rc, comple
 
 pub fn run_c12(ctx: &Ctx) {
     ctx.run_group("exts_exhaustive", 256, true, |c| c12_exts(c));
-    let n = ctx.n(60_000, 10_000_000);
+    let n = ctx.n(300_000, 15_000_000);
     ctx.run_group("strings", n, false, |c| c12_case(c));
-    let nk = ctx.n(190_000, 19_000_000);
+    let nk = ctx.n(950_000, 47_500_000);
     ctx.run_group("kmers", nk, false, |c| c12_kmers(c));
     if !ctx.is_miri() {
         ctx.require("exts_values", 256);
